@@ -13,7 +13,9 @@ import (
 	remoteexecution "github.com/bazelbuild/remote-apis/build/bazel/remote/execution/v2"
 	"github.com/buildbarn/bb-storage/pkg/blobstore"
 	"github.com/buildbarn/bb-storage/pkg/blobstore/buffer"
+	"github.com/buildbarn/bb-storage/pkg/blobstore/configuration"
 	"github.com/buildbarn/bb-storage/pkg/blobstore/sharding"
+	pb_blobstore "github.com/buildbarn/bb-storage/pkg/proto/configuration/blobstore"
 	"github.com/buildbarn/bb-storage/pkg/digest"
 	"vsim/sim"
 
@@ -169,6 +171,11 @@ type c12World struct {
 	nextOp   int
 	tieH8    map[uint64]bool
 	faultsOn bool
+	// configured: composites assembled by NewBlobAccessFromConfiguration
+	// (the map iteration of new_blob_access.go decides the listing order)
+	configured bool
+	sched      *rt.Sched
+	restores   []func()
 }
 
 func (w *c12World) dg(o *c12Obj, inst string) digest.Digest {
@@ -326,7 +333,20 @@ func (w *c12World) newEpoch(list []c12Shard, how string) *c12Epoch {
 		panic(sim.HarnessError{Msg: fmt.Sprintf("c12: selector construction failed for %s: %v", c12ListString(list), err)})
 	}
 	e.Sel = sel
-	e.BA = sharding.NewShardingBlobAccess(backends, sel)
+	if w.configured && w.sched != nil {
+		shardsCfg := map[string]*pb_blobstore.ShardingBlobAccessConfiguration_Shard{}
+		leaves := map[string]configuration.BlobAccessInfo{}
+		for i, s := range list {
+			name := fmt.Sprintf("%d", i)
+			shardsCfg[s.Key] = &pb_blobstore.ShardingBlobAccessConfiguration_Shard{Backend: leafConfig(name), Weight: s.Weight}
+			leaves[name] = configuration.BlobAccessInfo{BlobAccess: backends[i].Backend, DigestKeyFormat: digest.KeyWithInstance}
+		}
+		ba, _, restore := buildComposite(w.c, w.sched, sim.NewClock(w.sched), &pb_blobstore.BlobAccessConfiguration{Backend: &pb_blobstore.BlobAccessConfiguration_Sharding{Sharding: &pb_blobstore.ShardingBlobAccessConfiguration{Shards: shardsCfg}}}, leaves)
+		w.restores = append(w.restores, restore)
+		e.BA = ba
+	} else {
+		e.BA = sharding.NewShardingBlobAccess(backends, sel)
+	}
 	w.epochs = append(w.epochs, e)
 	w.c.Note("epoch %d (%s): shards %s", e.Idx, how, c12ListString(list))
 	return e
@@ -639,6 +659,9 @@ func (w *c12World) drawObjects(t *sim.Tape, keys []string, tieHashes []uint64) {
 			// a genuine object: hash of its content
 			fn := c12Functions[t.Choose(len(c12Functions))]
 			content := c12Pattern(t.Choose(256), []int{0, 1, 4, 9, 17}[t.Choose(5)])
+			if w.configured && len(content) == 0 {
+				content = c12Pattern(7, 3) // (the configured top-level decorator answers for the empty blob itself)
+			}
 			hx, _ := hex.DecodeString(RefHash(fn, content))
 			o := &c12Obj{Idx: len(w.objs), Fn: fn, Hash: hx, H8: binary.BigEndian.Uint64(hx[:8]), Content: content, Real: true, How: "real"}
 			w.objs = append(w.objs, o)
@@ -652,6 +675,9 @@ func (w *c12World) drawObjects(t *sim.Tape, keys []string, tieHashes []uint64) {
 		for m := 0; m < members; m++ {
 			fn := c12Functions[t.Choose(len(c12Functions))]
 			content := c12Pattern(t.Choose(256), []int{1, 0, 2, 5, 9, 17}[t.Choose(6)])
+			if w.configured && len(content) == 0 {
+				content = c12Pattern(7, 3)
+			}
 			w.objs = append(w.objs, c12MakeObj(len(w.objs), fn, h8, t.Choose(256), content, how))
 		}
 	}
@@ -701,6 +727,10 @@ func (w *c12World) drawOp(t *sim.Tape, e *c12Epoch) *c12Op {
 		n := len(op.Obj.Content)
 		op.ChildOff = t.Choose(n + 1)
 		op.ChildLen = t.Choose(n - op.ChildOff + 1)
+		if w.configured && op.ChildLen == 0 {
+			// (an empty child is answered by the configured top-level decorator)
+			op.ChildOff, op.ChildLen = 0, 1
+		}
 		op.Stream = t.Chance(1, 3)
 	case c12OpFind:
 		n := 1 + t.Choose(2*len(w.objs))
@@ -790,6 +820,7 @@ func c12Run(o c12Opts) func(c *sim.RunCtx) {
 		t := c.T.Plan
 		w := &c12World{c: c, slotOf: map[string]int{}, stubs: map[string]*c12Stub{}, refs: map[digest.Digest]c12Ref{},
 			routes: map[string]map[uint64]c12RouteObs{}, tieH8: map[uint64]bool{}, faultsOn: o.Faults}
+		w.configured = t.Chance(1, 3)
 		// key table of the run: a tape-chosen selection of the pool
 		var list []c12Shard
 		var tieHashes []uint64
@@ -856,6 +887,13 @@ func c12Run(o c12Opts) func(c *sim.RunCtx) {
 		nTrans := t.Pick(1, 3, 3, 2, 1)
 		var hist []string
 		c.Sim(sim.SimOpts{MaxSteps: 200000, DeadlockClass: "deadlock"}, func(s *rt.Sched) {
+			w.sched = s
+			defer func() {
+				for _, r := range w.restores {
+					r()
+				}
+				w.restores, w.sched = nil, nil
+			}()
 			for i, mask := range seedMask {
 				for sl, k := range w.keys {
 					if mask&(1<<uint(sl)) == 0 {
